@@ -3926,6 +3926,9 @@ impl LineBuf {
 			|| cmd.flags.contains(CmdFlags::INSERT_SESSION);
 		let opens_insert = cmd.verb.as_ref().is_some_and(|v| matches!(v.1, Verb::Change | Verb::InsertModeLineBreak(_)));
 		let is_line_motion = cmd.is_line_motion();
+		// Entering or leaving visual mode moves nothing: the column that j and k aim for stays
+		let keeps_col = cmd.motion.as_ref().is_none_or(|m| matches!(m.1, Motion::Null)) && cmd.verb.as_ref().is_some_and(|v| matches!(v.1,
+			Verb::NormalMode | Verb::VisualMode | Verb::VisualModeLine | Verb::VisualModeBlock));
 		let is_undo_op = cmd.is_undo_op();
 		let edit_is_merging = self.undo_stack.last().is_some_and(|edit| edit.merging);
 		let undo_len_before = self.undo_stack.len();
@@ -4029,7 +4032,7 @@ impl LineBuf {
 			}
 		}
 
-		if !is_line_motion {
+		if !is_line_motion && !keeps_col {
 			self.saved_col = None;
 		}
 
